@@ -79,6 +79,9 @@ pub fn oracles_for(prop: &str, c: &Case, impl_result: &str) -> Vec<Verdict> {
         ("C01", Case::Write { ctors, .. }) => v.push(oracle_c01(ctors)),
         ("C04", Case::Write { ctors, .. }) => v.push(oracle_c04(ctors)),
         ("C05", Case::Write { ctors, .. }) => v.push(oracle_c05(ctors)),
+        ("C01", Case::WriteH { route, ctors, .. }) => v.push(with_route(*route, || oracle_c01(ctors))),
+        ("C04", Case::WriteH { route, ctors, .. }) => v.push(with_route(*route, || oracle_c04(ctors))),
+        ("C05", Case::WriteH { route, ctors, .. }) => v.push(with_route(*route, || oracle_c05(ctors))),
         ("C05", Case::Construct(c)) => v.push(oracle_c05(std::slice::from_ref(c))),
         ("C06", Case::Read { target, shp, .. }) if target != "generic" => v.push(oracle_c06(target, shp)),
         ("C06", Case::Construct(c)) => v.push(oracle_c06_value(c)),
@@ -89,6 +92,12 @@ pub fn oracles_for(prop: &str, c: &Case, impl_result: &str) -> Vec<Verdict> {
             }
         }
         ("C09", Case::Whist { shx, ending, ops }) => v.push(oracle_c09(*shx, ending, ops)),
+        ("C09", Case::Wfault { shx, dest, fault, persistent, ops }) => {
+            // only the part of the fault oracle that concerns C09: "each successful finalize leaves
+            // ... a complete shapefile" also when an earlier finalize failed
+            let x = extra::oracle_c12(*shx, dest, *fault, *persistent, ops);
+            v.push(if x.ok || x.signature != "finalize-retry-differs" { Verdict::pass() } else { x });
+        }
         ("C10", Case::Whist { shx, ending, ops }) => v.push(oracle_c10(*shx, ending, ops)),
         ("C11", Case::Whist { shx, ops, .. }) => v.push(extra::oracle_c11(*shx, ops, None)),
         ("C12", Case::Wfault { shx, dest, fault, persistent, ops }) => v.push(extra::oracle_c12(*shx, dest, *fault, *persistent, ops)),
@@ -163,6 +172,10 @@ fn cases_for(prop: &str, tier: &str, seed: u64, out: &mut Out) {
             for_each_file(out, &mut rng, &mut stats, &b, allow_nan, if prop == "C02" || prop == "C04" || prop == "C05" { 0 } else { 1 }, |out, _fam, _d, ctors, rng| {
                 let c = Case::Write { shx: true, ctors: ctors.clone() };
                 run_and_judge(out, &c);
+                if matches!(out.prop.as_str(), "C01" | "C04" | "C05") && !ctors.is_empty() {
+                    let route = rng.next() | 1;
+                    run_and_judge(out, &Case::WriteH { route, shx: true, ctors: ctors.clone() });
+                }
                 let mut shapes = vec![];
                 for c in &ctors {
                     shapes.push(build(c).unwrap());
@@ -239,6 +252,12 @@ fn cases_for(prop: &str, tier: &str, seed: u64, out: &mut Out) {
                     _ => {}
                 }
             });
+            if prop == "C02" {
+                for (n_old, n_new) in [(40usize, 3usize), (7, 7), (12, 0)] {
+                    let id = out.oracle_only_id();
+                    out.verdict(&id, &format!("scenario path-overwrite {} {}", n_old, n_new), extra::oracle_path_overwrite(n_old, n_new));
+                }
+            }
         }
         "C06" => {
             let reps = if tier == "thorough" { 12 } else { 1 };
@@ -260,8 +279,9 @@ fn cases_for(prop: &str, tier: &str, seed: u64, out: &mut Out) {
                     mixed.extend_from_slice(&[0, 0, 0, 9, 0, 0, 0, 2, 0, 0, 0, 0]);
                     let total = (mixed.len() / 2) as i32;
                     mixed[24..28].copy_from_slice(&total.to_be_bytes());
-                    let req = type_name_of(fam, *d);
-                    run_and_judge(out, &Case::Read { target: req, shp: mixed.clone(), shx: None });
+                    for req in TYPE_NAMES {
+                        run_and_judge(out, &Case::Read { target: req.to_string(), shp: mixed.clone(), shx: None });
+                    }
                     run_and_judge(out, &Case::Read { target: "generic".into(), shp: mixed, shx: None });
                 }
             }
@@ -269,6 +289,9 @@ fn cases_for(prop: &str, tier: &str, seed: u64, out: &mut Out) {
         "C07" | "C17" => extra::cases_malformed(prop, tier, &mut rng, &mut stats, out),
         "C09" | "C10" => {
             extra::cases_whist(prop, tier, &mut rng, &mut stats, out);
+            if prop == "C09" {
+                extra::cases_fault("quick", &mut rng, &mut stats, out);
+            }
             if prop == "C10" {
                 extra::cases_dbf_c10(tier, &mut stats, out);
             }
@@ -298,6 +321,18 @@ fn cases_for(prop: &str, tier: &str, seed: u64, out: &mut Out) {
                     let c = g.ctor("polygon", d, fl, false);
                     run_and_judge(out, &Case::Construct(c));
                 }
+                // small rings far from the origin: integer vertices scaled by 2^-k and translated, so
+                // that the (exactly representable) doubled area is tiny (down to 2^-60) but not zero
+                if i % 2 == 0 {
+                    let r = g.role();
+                    let ps = g.ring(d, Flavor::Exact, false);
+                    let k = *g.rng.pick(&[8i32, 16, 20, 30]);
+                    let (ox, oy) = (*g.rng.pick(&[0.0f64, 1000.0, -72.5, 4096.0]), *g.rng.pick(&[0.0f64, 2010.0, 41.25, -512.0]));
+                    let s = (2.0f64).powi(-k);
+                    let scaled: Vec<P> = ps.iter().map(|p| P { x: (ox + f(p.x) * s).to_bits(), y: (oy + f(p.y) * s).to_bits(), z: p.z, m: p.m }).collect();
+                    g.stats.hit("ring.scaled");
+                    run_and_judge(out, &Case::Ring(d, r, scaled));
+                }
             }
             extra::macro_cases(out);
         }
@@ -326,7 +361,26 @@ fn cases_for(prop: &str, tier: &str, seed: u64, out: &mut Out) {
                             _ => Ctor::MultipatchParts((0..parts).map(|i| (Kind::ALL[i % 6], mk(&mut g, pts))).collect()),
                         };
                         stats.hit(&format!("grid.{}", c.type_name()));
-                        run_and_judge(out, &Case::Size(c));
+                        run_and_judge(out, &Case::Size(c.clone()));
+                        // the same shape with one part (not the first) left without vertices
+                        if parts >= 2 {
+                            let hole = 1 + (pts % (parts - 1).max(1)).min(parts - 2);
+                            let c2 = match c {
+                                Ctor::PolygonRings(d, mut rr) => {
+                                    rr[hole].1.clear();
+                                    Some(Ctor::PolygonRings(d, rr))
+                                }
+                                Ctor::MultipatchParts(mut pp) => {
+                                    pp[hole].1.clear();
+                                    Some(Ctor::MultipatchParts(pp))
+                                }
+                                _ => None,
+                            };
+                            if let Some(c2) = c2 {
+                                stats.hit("grid.empty-part");
+                                run_and_judge(out, &Case::Size(c2));
+                            }
+                        }
                     }
                 }
             }
